@@ -2,7 +2,7 @@
    Model: model/Context.v get_call_target over the scope chain (compared with rattr on every generated call site
    through the FunctionAnalyser correspondence), model/Results.v resolve (which targets are expanded).
    Specification: spec/Scoping.v expected_inline judges rattr's end-to-end answer per call site. *)
-From RattrV Require Import Base Str Context CallSwaps FuncAn Results C08Proofs.
+From RattrV Require Import Base Str Context CallSwaps FuncAn Results C08Proofs C08Member.
 Open Scope string_scope.
 Open Scope list_scope.
 
@@ -44,3 +44,24 @@ Theorem C08_parameter_named_like_function_refuted :
   /\ get_call_target (fun _ => false) after_params "x" = Some (mkSym "x" KName).
 Proof. exact parameter_named_like_function_refuted. Qed.
 Print Assumptions C08_parameter_named_like_function_refuted.
+
+(* a dotted call m.f() where m is an imported module gets the import m.f as target (then followed by the import
+   resolver, C06); where m is an import that is not a module (a from-imported class, function, constant) it gets none *)
+Theorem C08_module_member_call_targets_the_import :
+  forall mexists c m f q,
+    let name := (m ++ "." ++ f)%string in
+    replace_all "*" "" (without_call_brackets name) = name -> split_dot name = [m; f] ->
+    starts_with "@" name = false -> contains "[]" name = false -> contains "." name = true ->
+    replace_all (m ++ ".") "" name = f ->
+    ctx_get c name = None -> ctx_get c m = Some (mkSym m (KImport q)) -> mexists q = true ->
+    get_call_target mexists c name = Some (mkSym f (KImport (q ++ "." ++ f))).
+Proof. exact module_member_call_targets_the_import. Qed.
+Theorem C08_member_of_non_module_import_has_no_target :
+  forall mexists c m f q,
+    let name := (m ++ "." ++ f)%string in
+    replace_all "*" "" (without_call_brackets name) = name -> split_dot name = [m; f] ->
+    starts_with "@" name = false -> contains "[]" name = false -> contains "." name = true ->
+    ctx_get c name = None -> ctx_get c m = Some (mkSym m (KImport q)) -> mexists q = false ->
+    get_call_target mexists c name = None.
+Proof. exact member_of_non_module_import_has_no_target. Qed.
+Print Assumptions C08_module_member_call_targets_the_import.
